@@ -32,6 +32,10 @@ def inst_frame_window(cx, iid):
         cx.preceded_by(inst, b, sinks, ms, "handle_datagram before mark_seen", "FrameAckQueue::mark_seen(frame.sequence_id, ..)")
 
 
+# the window test, as a call of the helper or written out at the call site
+CONTAINS = [[r"ReceiveWindow::contains\(arg1\.receive_window,arg2\)"], [r"lt\(u32::wrapping_sub\(arg2,arg1\.receive_window\.base_id\),arg1\.receive_window\.size\)"]]
+
+
 def inst_receive_window(cx, iid):
     R = cx.R
     with cx.instance(iid, "T7 SHAPE + T1", "ReceiveWindow: contains == wrapping_sub(id, base) < size; mark_seen advances past the id; advance only by 0 < delta <= size", floor=4) as inst:
@@ -55,10 +59,10 @@ def inst_receive_window(cx, iid):
                 inst.violation(m.path, "advance argument", "mark_seen advances the window to `%s`, expected frame_id + 1" % a, at=m.span_at(loc))
         if not adv:
             inst.violation(m.path, "advance", "mark_seen no longer advances the receive window: replayed frames stay acceptable")
-        cx.guard(inst, m, adv, [[r"ReceiveWindow::contains\(arg1\.receive_window,arg2\)"]], construct="advance outside window")
+        cx.guard(inst, m, adv, CONTAINS, construct="advance outside window")
         # every push/bit update in mark_seen is under contains too
         eff = call_sites(m, "VecDeque::push_back") + [(l, "write " + ps) for l, node, ps in m.field_writes(r".*\.(bitfield|nonce)")]
-        cx.guard(inst, m, eff, [[r"ReceiveWindow::contains\(arg1\.receive_window,arg2\)"]], construct="ack state updated outside window")
+        cx.guard(inst, m, eff, CONTAINS, construct="ack state updated outside window")
         # on the contains edge advance happens on all paths: from entry, every path that passes the true edge reaches advance
         a = R.body("ReceiveWindow::advance")
         ws = [(l, "write base_id") for l, node, ps in a.field_writes(r"arg1\.base_id")]
